@@ -230,6 +230,25 @@ def body_moments(case, ctx):
             r2 = np.abs(got[:k, ic] - ref2) / (EPS * unit[:k, ic])
             if np.max(r2) > C_MOM:
                 ctx.fail("moment-value:pure-vs-cartesian-table", f"row {int(np.argmax(r2))} centre #{ic}: got {got[int(np.argmax(r2)), ic]!r}, table {ref2[int(np.argmax(r2))]!r}")
+    # ---- the same Grid object after its points and weights were reassigned: moments answer for the current grid
+    # (anything remembered from the first call - harmonics, centred points - must not survive the reassignment)
+    moved = pts[::-1] * 0.75 + 0.125
+    w2 = w[::-1] * 1.5
+    grid.points = moved.copy()
+    grid.weights = w2.copy()
+    got2 = np.asarray(grid.moments(order_arg, cents.copy(), f.copy(), type_mom=type_mom), dtype=float)
+    _, ref2m, scl2 = _reference(moved, w2, f, cents, max_order, type_mom)
+    if got2.shape != ref2m.shape:
+        ctx.fail(f"moments-shape:{type_mom}", f"after reassignment: shape {got2.shape}, expected {ref2m.shape}")
+    else:
+        with np.errstate(invalid="ignore"):
+            ratio2 = np.abs(got2 - ref2m) / (EPS * ((max_order + 2.0) * scl2 + 1e-300))
+        ratio2 = np.where(np.isnan(ratio2), np.inf, ratio2)
+        if float(np.max(ratio2)) > C_MOM:
+            row, ic = np.unravel_index(int(np.argmax(ratio2)), ratio2.shape)
+            ctx.fail(f"moment-value-after-reassignment:{type_mom}",
+                     f"{type_mom} d={d} order={max_order}: second moments() call after grid.points/grid.weights were reassigned: row {row} centre #{ic} "
+                     f"got {got2[row, ic]!r}, direct quadrature on the current grid {ref2m[row, ic]!r} ({float(np.max(ratio2)):.3g} eps*scale)")
     # ---- hand-computed expectations of pinned cases
     if "expect" in case:
         exp = np.array(case["expect"], dtype=float)
